@@ -297,7 +297,7 @@ class pdb2sql(pdb2sql_base):
         else:
             elem = pdb_line[13]
         # warnings.warn(f'Element is missing and guessed using atom type for line\n {pdb_line}')
-        return elem
+        return elem.strip()
 
     # replace the chain ID by A,B,C,D, ..... in that order
     def _fix_chainID(self):
